@@ -13,7 +13,7 @@
    float() on a token, int()/round() of a float, x**y, normalize_float, and the
    table of TR cards (get_mcnp_transforms). The numerical post-processing of
    transformation parameters (to_cos, normalize_transform; property C04) stays
-   symbolic: [trparams] says which numbers go through which of the two.
+   symbolic: [trparams] says which numbers go through them.
    The regex tokenisation of cards (cellcard.split, datacard.split) is not
    modelled: the model starts from (material, geometry | LIKE n, options) and
    from the (name, entries) of the IMP cards; the tie runs the real tokenisation.
@@ -26,7 +26,7 @@ Open Scope list_scope.
 
 (* Python exception classes the path can raise (ECell = ParseMCNPCellError,
    ELoop = the LIKE loop does not terminate: the model ran out of fuel) *)
-Inductive err := EIndex | EValue | EType | EZeroDiv | EKey | ECell | EMissingLattice | EAssert | ELoop.
+Inductive err := EIndex | EValue | EType | EZeroDiv | EKey | ECell | EMissingLattice | EAssert | ETransf | ELoop.
 Inductive res (A : Type) := Ok (a : A) | Err (e : err).
 Arguments Ok {A}. Arguments Err {A}.
 
@@ -57,11 +57,9 @@ Fixpoint dict_get {K V} (eqb : K -> K -> bool) (k : K) (d : list (K * V)) : opti
    through to_cos and/or normalize_transform are tagged, not computed *)
 Inductive trparams (T : Type) :=
 | TPVals (l : list T)        (* the numbers as stored: (), a TR card, a translation + identity *)
-| TPStrs (l : list string)   (* un-starred inline TRCL: the raw strings *)
-| TPCos (l : list T)         (* starred inline TRCL: l[:3] ++ map to_cos l[3:12] *)
-| TPNorm (l : list T)        (* un-starred inline FILL: normalize_transform l *)
-| TPNormCos (l : list T).    (* starred inline FILL: normalize_transform (l[:3] ++ map to_cos l[3:12]) *)
-Arguments TPVals {T}. Arguments TPStrs {T}. Arguments TPCos {T}. Arguments TPNorm {T}. Arguments TPNormCos {T}.
+| TPNorm (l : list T)        (* un-starred inline parameters: normalize_transform l *)
+| TPNormCos (l : list T).    (* starred inline parameters: normalize_transform (l[:3] ++ map to_cos l[3:12] ++ l[12:]) *)
+Arguments TPVals {T}. Arguments TPNorm {T}. Arguments TPNormCos {T}.
 
 Inductive funivs := FUInt (u : Z) | FUList (l : list (option Z)).
 
@@ -293,14 +291,24 @@ Section Model.
   Definition bounds_size (b : list (Z * Z)) : Z :=
     fold_left (fun x y => (x * (snd y - fst y + 1))%Z) b 1%Z.
 
-  (* the numeric tokens that follow FILL's universe specification *)
+  (* the numeric tokens that follow FILL's universe specification, or TRCL
+     (parse_fill_kw and parse_trcl_kw treat them in the same way) *)
   Definition fill_params (star : bool) (ptoks : list string) : res (trparams T) :=
     do vals <- floats_of ptoks;
     match vals with
     | [] => Ok (if star then TPNormCos [] else TPVals [])   (* '*fill=n' alone: normalize_transform([]) *)
     | [x] => do l <- of_opt EKey (trs P (tz P x)); Ok (TPVals (firstn 12 l))
     | [a; b; c] => Ok (TPVals ([a; b; c] ++ identity9))
-    | _ => Ok (if star then TPNormCos vals else TPNorm vals)
+    | _ =>
+        (* what normalize_transform refuses (TransformationError): a 13th entry
+           other than 1, or 1, 2, 4, 7, 8 matrix entries *)
+        let m_bad := match nth_error vals 12, Nat.eqb (List.length vals) 13 with
+                     | Some m, true => negb (seqb Sc m (s1 Sc))
+                     | _, _ => false
+                     end in
+        let nmat := (Nat.min (List.length vals) 12 - 3)%nat in
+        if m_bad || existsb (Nat.eqb nmat) [1; 2; 4; 7; 8]%nat then Err ETransf
+        else Ok (if star then TPNormCos vals else TPNorm vals)
     end.
 
   (* parse_fill_kw: value and number of tokens popped from [rest] *)
@@ -335,17 +343,8 @@ Section Model.
   (* parse_trcl_kw *)
   Definition parse_trcl (star : bool) (rest : list string) : res (trparams T * nat) :=
     let ptoks := take_numeric rest in
-    let n := List.length ptoks in
-    match ptoks with
-    | [x] =>
-        do id <- of_opt EValue (int_tok x);
-        do l <- of_opt EKey (trs P id);
-        Ok (TPVals (firstn 12 l), n)
-    | [a; b; c] => do vals <- floats_of ptoks; Ok (TPVals (vals ++ identity9), n)
-    | _ =>
-        if star then do vals <- floats_of ptoks; Ok (TPCos vals, n)
-        else Ok (TPStrs ptoks, n)
-    end.
+    do fp <- fill_params star ptoks;
+    Ok (fp, List.length ptoks).
 
   (* parse_lat_kw *)
   Definition parse_lat (rest : list string) : res Z :=
@@ -460,8 +459,6 @@ Section Model.
   Definition is_empty_params (p : trparams T) : bool :=
     match p with
     | TPVals [] => true
-    | TPStrs [] => true
-    | TPCos [] => true
     | _ => false
     end.
 
